@@ -5,9 +5,11 @@ use std::panic::{AssertUnwindSafe, catch_unwind};
 use std::sync::{Arc, Mutex};
 
 use iceoryx2::port::publisher::{Publisher, PublisherCreateError};
-use iceoryx2::port::subscriber::Subscriber;
+use iceoryx2::port::subscriber::{Subscriber, SubscriberCreateError};
 use iceoryx2::port::update_connections::UpdateConnections;
-use iceoryx2::port::{BackpressureAction, LoanError, ReceiveError};
+use iceoryx2::port::{BackpressureAction, DegradationAction, LoanError, ReceiveError};
+use iceoryx2_cal::named_concept::{NamedConceptBuilder, NamedConceptConfiguration, NamedConceptMgmt};
+use iceoryx2_cal::zero_copy_connection::{ZeroCopyConnection, ZeroCopyConnectionBuilder};
 use iceoryx2::prelude::*;
 use iceoryx2::sample::Sample;
 use iceoryx2::sample_mut::SampleMut;
@@ -33,6 +35,10 @@ pub struct Qos {
     pub strategy: String,
     pub payload: String,
     pub variant: String,
+    /// defaults.publish_subscribe.subscriber_expired_connection_buffer of the node's config
+    pub expbuf: usize,
+    /// payload alignment override of the service (8 = none)
+    pub align: usize,
 }
 
 impl Qos {
@@ -49,13 +55,16 @@ impl Qos {
             strategy: v["strategy"].as_str().unwrap_or("discard").to_string(),
             payload: v["payload"].as_str().unwrap_or("u64").to_string(),
             variant: v["variant"].as_str().unwrap_or("ipc").to_string(),
+            expbuf: v["expbuf"].as_u64().unwrap_or(64) as usize,
+            align: v["align"].as_u64().unwrap_or(8) as usize,
         }
     }
     fn reset_event(&self, name: &str, seed: u64) -> Value {
         json!({"k": "reset", "maxpubs": self.maxpubs, "maxsubs": self.maxsubs, "bufmax": self.bufmax,
                "hist": self.hist, "borrow": self.borrow, "loan": self.loan,
                "overflow": if self.overflow { 1 } else { 0 }, "strategy": self.strategy,
-               "payload": self.payload, "variant": self.variant, "service": name, "seed": seed})
+               "payload": self.payload, "variant": self.variant, "expbuf": self.expbuf, "align": self.align,
+               "service": name, "seed": seed})
     }
 }
 
@@ -76,24 +85,61 @@ fn slice_byte(id: u64, i: usize) -> u8 {
     }
 }
 
-type Calls = Arc<Mutex<Vec<u128>>>;
+/// State shared between a publisher's unable-to-deliver (backpressure) handler and the world:
+/// `calls` = receiver ports the handler was invoked for during the current send; `nested` = the
+/// script of the send in progress (runs calls of its own from inside the handler).
+pub struct Hook {
+    calls: Mutex<Vec<u128>>,
+    nested: Mutex<Option<Box<dyn FnMut(u128, u64) -> BackpressureAction + Send>>>,
+}
+type HookRef = Arc<Hook>;
+
+impl Hook {
+    fn new() -> HookRef {
+        Arc::new(Hook { calls: Mutex::new(Vec::new()), nested: Mutex::new(None) })
+    }
+    fn on_call(&self, receiver: u128, retries: u64, give_up: BackpressureAction) -> BackpressureAction {
+        self.calls.lock().unwrap().push(receiver);
+        let mut g = self.nested.lock().unwrap();
+        if let Some(f) = g.as_mut() {
+            return f(receiver, retries);
+        }
+        if retries == 0 { BackpressureAction::Retry } else { give_up }
+    }
+}
+
+struct SendPtr<T>(*mut T);
+unsafe impl<T> Send for SendPtr<T> {}
+
+fn deg_action(deg: &str) -> DegradationAction {
+    match deg {
+        "ignore" => DegradationAction::Ignore,
+        "fail" => DegradationAction::DegradeAndFail,
+        _ => DegradationAction::Warn,
+    }
+}
 
 /// The two payload kinds (fixed size `u64`, slices `[u8]` of varying length).
 pub trait Kind: 'static + Sized {
     type T: ?Sized + core::fmt::Debug + IceoryxSend + 'static;
     fn create_service<S: Service>(node: &Node<S>, name: &ServiceName, q: &Qos) -> Result<PsFactory<S, Self::T, ()>, String>;
-    fn create_publisher<S: Service>(f: &PsFactory<S, Self::T, ()>, q: &Qos, calls: Calls) -> Result<Publisher<S, Self::T, ()>, PublisherCreateError>;
+    fn create_publisher<S: Service>(f: &PsFactory<S, Self::T, ()>, q: &Qos, hook: HookRef, deg: &str) -> Result<Publisher<S, Self::T, ()>, PublisherCreateError>;
+    fn create_subscriber<S: Service>(f: &PsFactory<S, Self::T, ()>, buf: usize, req: usize, deg: &str) -> Result<Subscriber<S, Self::T, ()>, SubscriberCreateError>;
     fn loan<S: Service>(p: &Publisher<S, Self::T, ()>, id: u64) -> Result<SampleMut<S, Self::T, ()>, LoanError>;
     fn loan_addr<S: Service>(l: &SampleMut<S, Self::T, ()>) -> usize;
     fn loan_ok<S: Service>(l: &SampleMut<S, Self::T, ()>, id: u64) -> bool;
     fn recv<S: Service>(s: &Subscriber<S, Self::T, ()>) -> Result<Option<Sample<S, Self::T, ()>>, ReceiveError>;
     /// (decoded id, payload equals the canary of that id)
     fn decode<S: Service>(s: &Sample<S, Self::T, ()>) -> (u64, bool);
+    /// address of the sample's header (computed without touching the memory)
+    fn sample_addr<S: Service>(s: &Sample<S, Self::T, ()>) -> usize {
+        s.header() as *const _ as usize
+    }
 }
 
 macro_rules! service_builder {
-    ($node:expr, $name:expr, $q:expr, $t:ty) => {
-        $node
+    ($node:expr, $name:expr, $q:expr, $t:ty) => {{
+        let b = $node
             .service_builder($name)
             .publish_subscribe::<$t>()
             .max_publishers($q.maxpubs)
@@ -102,32 +148,52 @@ macro_rules! service_builder {
             .history_size($q.hist)
             .subscriber_max_borrowed_samples($q.borrow)
             .enable_safe_overflow($q.overflow)
-            .max_nodes(2)
-            .create()
-            .map_err(|e| format!("{e:?}"))
-    };
+            .max_nodes(2);
+        // over-aligned payloads: the chunk layout (and with it the place of the first chunk inside the
+        // data segment) depends on the alignment
+        let b = if $q.align > 8 { b.payload_alignment(Alignment::new($q.align).expect("alignment")) } else { b };
+        b.create().map_err(|e| format!("{e:?}"))
+    }};
 }
 
 macro_rules! publisher_builder {
-    ($b:expr, $q:expr, $calls:expr) => {{
+    ($b:expr, $q:expr, $hook:expr, $deg:expr) => {{
         let b = $b.max_loaned_samples($q.loan);
-        let calls: Calls = $calls;
+        let b = match $deg {
+            "warn" => b, // the default handler
+            d => {
+                let a = deg_action(d);
+                b.set_degradation_handler(move |_cause, _info| a)
+            }
+        };
+        let hook: HookRef = $hook;
         match $q.strategy.as_str() {
             "discard" => b.backpressure_strategy(BackpressureStrategy::DiscardData).create(),
             "retry_fail" => b
                 .backpressure_strategy(BackpressureStrategy::RetryUntilDelivered)
                 .set_backpressure_handler(move |info| {
-                    calls.lock().unwrap().push(info.receiver_port_id);
-                    if info.retries == 0 { BackpressureAction::Retry } else { BackpressureAction::DiscardDataAndFail }
+                    hook.on_call(info.receiver_port_id, info.retries, BackpressureAction::DiscardDataAndFail)
                 })
                 .create(),
             _ => b
                 .backpressure_strategy(BackpressureStrategy::RetryUntilDelivered)
                 .set_backpressure_handler(move |info| {
-                    calls.lock().unwrap().push(info.receiver_port_id);
-                    if info.retries == 0 { BackpressureAction::Retry } else { BackpressureAction::DiscardData }
+                    hook.on_call(info.receiver_port_id, info.retries, BackpressureAction::DiscardData)
                 })
                 .create(),
+        }
+    }};
+}
+
+macro_rules! subscriber_builder {
+    ($f:expr, $buf:expr, $req:expr, $deg:expr) => {{
+        let b = $f.subscriber_builder().buffer_size($buf).history_request($req);
+        match $deg {
+            "warn" => b.create(),
+            d => {
+                let a = deg_action(d);
+                b.set_degradation_handler(move |_cause, _info| a).create()
+            }
         }
     }};
 }
@@ -138,8 +204,11 @@ impl Kind for U64Kind {
     fn create_service<S: Service>(node: &Node<S>, name: &ServiceName, q: &Qos) -> Result<PsFactory<S, u64, ()>, String> {
         service_builder!(node, name, q, u64)
     }
-    fn create_publisher<S: Service>(f: &PsFactory<S, u64, ()>, q: &Qos, calls: Calls) -> Result<Publisher<S, u64, ()>, PublisherCreateError> {
-        publisher_builder!(f.publisher_builder(), q, calls)
+    fn create_publisher<S: Service>(f: &PsFactory<S, u64, ()>, q: &Qos, hook: HookRef, deg: &str) -> Result<Publisher<S, u64, ()>, PublisherCreateError> {
+        publisher_builder!(f.publisher_builder(), q, hook, deg)
+    }
+    fn create_subscriber<S: Service>(f: &PsFactory<S, u64, ()>, buf: usize, req: usize, deg: &str) -> Result<Subscriber<S, u64, ()>, SubscriberCreateError> {
+        subscriber_builder!(f, buf, req, deg)
     }
     fn loan<S: Service>(p: &Publisher<S, u64, ()>, id: u64) -> Result<SampleMut<S, u64, ()>, LoanError> {
         Ok(p.loan_uninit()?.write_payload(canary_u64(id)))
@@ -166,8 +235,11 @@ impl Kind for SliceKind {
     fn create_service<S: Service>(node: &Node<S>, name: &ServiceName, q: &Qos) -> Result<PsFactory<S, [u8], ()>, String> {
         service_builder!(node, name, q, [u8])
     }
-    fn create_publisher<S: Service>(f: &PsFactory<S, [u8], ()>, q: &Qos, calls: Calls) -> Result<Publisher<S, [u8], ()>, PublisherCreateError> {
-        publisher_builder!(f.publisher_builder().initial_max_slice_len(MAX_SLICE), q, calls)
+    fn create_publisher<S: Service>(f: &PsFactory<S, [u8], ()>, q: &Qos, hook: HookRef, deg: &str) -> Result<Publisher<S, [u8], ()>, PublisherCreateError> {
+        publisher_builder!(f.publisher_builder().initial_max_slice_len(MAX_SLICE), q, hook, deg)
+    }
+    fn create_subscriber<S: Service>(f: &PsFactory<S, [u8], ()>, buf: usize, req: usize, deg: &str) -> Result<Subscriber<S, [u8], ()>, SubscriberCreateError> {
+        subscriber_builder!(f, buf, req, deg)
     }
     fn loan<S: Service>(p: &Publisher<S, [u8], ()>, id: u64) -> Result<SampleMut<S, [u8], ()>, LoanError> {
         Ok(p.loan_slice_uninit(slice_len(id))?.write_from_fn(|i| slice_byte(id, i)))
@@ -202,6 +274,10 @@ struct PubEnt<S: Service, K: Kind> {
     port: Publisher<S, K::T, ()>,
     loans: Vec<(u64, SampleMut<S, K::T, ()>)>,
     addrs: Vec<usize>,
+    /// number_of_samples of the dynamic config
+    n: usize,
+    /// fault: the data segment was removed from the system
+    broken: bool,
 }
 
 #[derive(PartialEq, Clone, Copy)]
@@ -215,6 +291,8 @@ struct SubEnt<S: Service, K: Kind> {
     port: Option<Subscriber<S, K::T, ()>>,
     state: SubState,
     held: Vec<(u64, Sample<S, K::T, ()>)>,
+    buf: usize,
+    id: u128,
 }
 
 #[derive(Default)]
@@ -229,7 +307,10 @@ impl Summary {
         let a = ev["a"].as_str().unwrap_or("?");
         let key = match ev.get("r").and_then(|r| r.as_str()) {
             Some(r) => format!("{a}:{r}"),
-            None => a.to_string(),
+            None => match ev.get("act").and_then(|r| r.as_str()) {
+                Some(r) => format!("{a}:{r}"),
+                None => a.to_string(),
+            },
         };
         *self.counts.entry(key).or_insert(0) += 1;
         if ev.get("bad").and_then(|b| b.as_array()).map(|b| !b.is_empty()).unwrap_or(false) {
@@ -241,17 +322,23 @@ impl Summary {
     }
 }
 
+type ForeignSender<S> = <<S as Service>::Connection as ZeroCopyConnection>::Sender;
+
 pub struct World<S: Service, K: Kind> {
     pubs: BTreeMap<u32, PubEnt<S, K>>,
     subs: BTreeMap<u32, SubEnt<S, K>>,
     factory: PsFactory<S, K::T, ()>,
+    config: Config,
     q: Qos,
     pubids: HashMap<u128, u32>,
+    subids: HashMap<u128, u32>,
+    /// fault: foreign senders occupying the sender side of a connection (publisher, subscriber)
+    foreign: Vec<((u32, u32), ForeignSender<S>)>,
     next_id: u64,
     next_p: u32,
     next_s: u32,
     abandoned: u32,
-    calls: Calls,
+    hook: HookRef,
 }
 
 fn ev(a: &str, fields: Value) -> Value {
@@ -266,23 +353,51 @@ fn ev(a: &str, fields: Value) -> Value {
     Value::Object(m)
 }
 
-impl<S: Service, K: Kind> World<S, K> {
-    fn new(factory: PsFactory<S, K::T, ()>, q: &Qos) -> Self {
+unsafe extern "C" {
+    fn mincore(addr: *mut core::ffi::c_void, length: usize, vec: *mut u8) -> i32;
+}
+
+/// true iff [addr, addr+len) is mapped (a Sample whose connection was dropped points into an
+/// unmapped data segment: reading it would kill the driver)
+fn is_mapped(addr: usize, len: usize) -> bool {
+    const PAGE: usize = 4096;
+    let start = addr & !(PAGE - 1);
+    let end = (addr + len + PAGE - 1) & !(PAGE - 1);
+    let mut v = vec![0u8; (end - start) / PAGE];
+    unsafe { mincore(start as *mut core::ffi::c_void, end - start, v.as_mut_ptr()) == 0 }
+}
+
+/// ConnectionFailure(..) / ConnectionError(..) carry the low-level cause: one name for the specification
+fn norm_err(e: String) -> String {
+    if e.starts_with("ConnectionFailure") || e.starts_with("ConnectionError") {
+        "ConnectionFailure".into()
+    } else {
+        e
+    }
+}
+
+const NESTED_OPS: [&str; 4] = ["recv", "drop_sample", "has", "update_sub"];
+
+impl<S: Service + 'static, K: Kind> World<S, K> {
+    fn new(factory: PsFactory<S, K::T, ()>, q: &Qos, config: &Config) -> Self {
         World {
             pubs: BTreeMap::new(),
             subs: BTreeMap::new(),
             factory,
+            config: config.clone(),
             q: q.clone(),
             pubids: HashMap::new(),
+            subids: HashMap::new(),
+            foreign: Vec::new(),
             next_id: 1,
             next_p: 1,
             next_s: 1,
             abandoned: 0,
-            calls: Arc::new(Mutex::new(Vec::new())),
+            hook: Hook::new(),
         }
     }
 
-    /// ids of held samples / loans whose bytes no longer equal their canary
+    /// ids of held samples / loans whose bytes no longer equal their canary (or are not even mapped)
     fn bad(&self) -> Vec<u64> {
         let mut bad = Vec::new();
         for s in self.subs.values() {
@@ -290,6 +405,10 @@ impl<S: Service, K: Kind> World<S, K> {
                 continue; // the subscriber is gone: nothing refers to these chunks any more
             }
             for (id, smp) in &s.held {
+                if !is_mapped(K::sample_addr(smp), 64) {
+                    bad.push(*id);
+                    continue;
+                }
                 let (did, ok) = K::decode(smp);
                 if !ok || did != *id {
                     bad.push(*id);
@@ -320,7 +439,110 @@ impl<S: Service, K: Kind> World<S, K> {
         v[k].as_u64().unwrap_or(0)
     }
 
-    /// Executes one program action; returns the recorded events (without the `bad` field).
+    fn deg_of(act: &Value) -> String {
+        match act["deg"].as_str() {
+            Some("ignore") => "ignore".into(),
+            Some("fail") => "fail".into(),
+            _ => "warn".into(),
+        }
+    }
+
+    fn data_segment_cfg(&self) -> <S::SharedMemory as NamedConceptMgmt>::Configuration {
+        <<S::SharedMemory as NamedConceptMgmt>::Configuration>::default()
+            .prefix(&self.config.global.prefix)
+            .suffix(&self.config.global.service.data_segment_suffix)
+            .path_hint(self.config.global.root_path())
+    }
+
+    fn connection_cfg(&self) -> <S::Connection as NamedConceptMgmt>::Configuration {
+        <<S::Connection as NamedConceptMgmt>::Configuration>::default()
+            .prefix(&self.config.global.prefix)
+            .suffix(&self.config.global.service.connection_suffix)
+            .path_hint(self.config.global.root_path())
+    }
+
+    /// The send of a loan; with a script (`nest`) the unable-to-deliver handler executes calls of its
+    /// own (subscriber calls only) and the send is recorded in its sub-steps.
+    fn exec_send(&mut self, p: u32, id: u64, l: SampleMut<S, K::T, ()>, nest: Option<Vec<Value>>) -> Vec<Value> {
+        let mut out = Vec::new();
+        self.hook.calls.lock().unwrap().clear();
+        let scripted = nest.is_some() && self.q.strategy != "discard";
+        let events: Arc<Mutex<Vec<Value>>> = Arc::new(Mutex::new(Vec::new()));
+        if scripted {
+            let script = nest.unwrap();
+            let this = SendPtr(self as *mut Self);
+            let ev2 = events.clone();
+            let may_fail = self.q.strategy == "retry_fail";
+            let mut call_no = 0usize;
+            let f = move |rid: u128, retries: u64| -> BackpressureAction {
+                let this = &this;
+                // SAFETY: the world is not touched by `exec_send` while the send runs
+                let w: &mut Self = unsafe { &mut *this.0 };
+                let s = w.subids.get(&rid).copied().unwrap_or(0);
+                let mut evs = vec![ev("bp", json!({"s": s, "k": retries, "bad": []}))];
+                let entry = script.get(call_no).cloned().unwrap_or(Value::Null);
+                call_no += 1;
+                let mut act = entry["act"].as_str().map(|x| x.to_string());
+                let ops: Vec<Value> = if let Some(seed) = entry["gen"].as_u64() {
+                    let mut rng = Rng::new(seed);
+                    let (ops, a) = w.gen_nested(&mut rng, s);
+                    if act.is_none() {
+                        act = Some(a);
+                    }
+                    ops
+                } else {
+                    entry["ops"].as_array().cloned().unwrap_or_default()
+                };
+                for op in &ops {
+                    if !NESTED_OPS.contains(&op["a"].as_str().unwrap_or("")) {
+                        continue;
+                    }
+                    for mut e in w.exec(op) {
+                        e.as_object_mut().unwrap().insert("bad".into(), json!(w.bad()));
+                        evs.push(e);
+                    }
+                }
+                let act = match act.as_deref() {
+                    Some("retry") => "retry",
+                    Some("fail") if may_fail => "fail",
+                    Some("discard") | Some("fail") => "discard",
+                    _ => {
+                        if retries == 0 {
+                            "retry"
+                        } else if may_fail {
+                            "fail"
+                        } else {
+                            "discard"
+                        }
+                    }
+                };
+                evs.push(ev("bp_ret", json!({"act": act, "bad": []})));
+                ev2.lock().unwrap().extend(evs);
+                match act {
+                    "retry" => BackpressureAction::Retry,
+                    "discard" => BackpressureAction::DiscardData,
+                    _ => BackpressureAction::DiscardDataAndFail,
+                }
+            };
+            *self.hook.nested.lock().unwrap() = Some(Box::new(f));
+            out.push(ev("send_begin", json!({"p": p, "id": id, "bad": []})));
+        }
+        let res = l.send();
+        *self.hook.nested.lock().unwrap() = None;
+        let mut blocked = self.hook.calls.lock().unwrap().clone();
+        blocked.sort();
+        blocked.dedup();
+        let a = if scripted { "send_end" } else { "send" };
+        out.extend(events.lock().unwrap().drain(..));
+        match res {
+            Ok(n) => out.push(ev(a, json!({"p": p, "id": id, "r": "ok", "n": n, "blk": blocked.len()}))),
+            Err(e) => out.push(ev(a, json!({"p": p, "id": id, "r": norm_err(format!("{e:?}")), "n": 0, "blk": blocked.len()}))),
+        }
+        out
+    }
+
+    /// Executes one program action; returns the recorded events (the `bad` field is added by the caller
+    /// where it is missing).
     fn exec(&mut self, act: &Value) -> Vec<Value> {
         let a = act["a"].as_str().unwrap_or("");
         let mut out = Vec::new();
@@ -330,7 +552,8 @@ impl<S: Service, K: Kind> World<S, K> {
                 if p == 0 || self.pubs.contains_key(&p) || self.pubids.values().any(|x| *x == p) {
                     return out;
                 }
-                match K::create_publisher(&self.factory, &self.q, self.calls.clone()) {
+                let deg = Self::deg_of(act);
+                match K::create_publisher(&self.factory, &self.q, self.hook.clone(), &deg) {
                     Ok(port) => {
                         let mut n = 0usize;
                         let pid = port.id();
@@ -341,11 +564,11 @@ impl<S: Service, K: Kind> World<S, K> {
                             CallbackProgression::Continue
                         });
                         self.pubids.insert(pid.value(), p);
-                        self.pubs.insert(p, PubEnt { port, loans: Vec::new(), addrs: Vec::new() });
+                        self.pubs.insert(p, PubEnt { port, loans: Vec::new(), addrs: Vec::new(), n, broken: false });
                         self.next_p = self.next_p.max(p + 1);
-                        out.push(ev(a, json!({"p": p, "r": "ok", "n": n})));
+                        out.push(ev(a, json!({"p": p, "r": "ok", "n": n, "deg": deg})));
                     }
-                    Err(e) => out.push(ev(a, json!({"p": p, "r": format!("{e:?}"), "n": 0}))),
+                    Err(e) => out.push(ev(a, json!({"p": p, "r": format!("{e:?}"), "n": 0, "deg": deg}))),
                 }
             }
             "drop_pub" => {
@@ -366,13 +589,16 @@ impl<S: Service, K: Kind> World<S, K> {
                     return out;
                 }
                 let (buf, req) = (Self::u(act, "buf") as usize, Self::u(act, "req") as usize);
-                match self.factory.subscriber_builder().buffer_size(buf).history_request(req).create() {
+                let deg = Self::deg_of(act);
+                match K::create_subscriber(&self.factory, buf, req, &deg) {
                     Ok(port) => {
-                        self.subs.insert(s, SubEnt { port: Some(port), state: SubState::Live, held: Vec::new() });
+                        let id = port.id().value();
+                        self.subids.insert(id, s);
+                        self.subs.insert(s, SubEnt { port: Some(port), state: SubState::Live, held: Vec::new(), buf, id });
                         self.next_s = self.next_s.max(s + 1);
-                        out.push(ev(a, json!({"s": s, "buf": buf, "req": req, "r": "ok"})));
+                        out.push(ev(a, json!({"s": s, "buf": buf, "req": req, "r": "ok", "deg": deg})));
                     }
-                    Err(e) => out.push(ev(a, json!({"s": s, "buf": buf, "req": req, "r": format!("{e:?}")}))),
+                    Err(e) => out.push(ev(a, json!({"s": s, "buf": buf, "req": req, "r": format!("{e:?}"), "deg": deg}))),
                 }
             }
             "drop_sub" => {
@@ -407,6 +633,54 @@ impl<S: Service, K: Kind> World<S, K> {
                     out.push(ev(a, json!({"s": s})));
                 }
             }
+            // fault: the data segment of a live publisher disappears from the system; receivers that
+            // did not map it yet can no longer establish their side of the connection
+            "break_seg" => {
+                let p = Self::u(act, "p") as u32;
+                let cfg = self.data_segment_cfg();
+                if let Some(pe) = self.pubs.get_mut(&p) {
+                    if pe.broken {
+                        return out;
+                    }
+                    let name = FileName::new(pe.port.id().value().to_string().as_bytes()).expect("segment name");
+                    match unsafe { <S::SharedMemory as NamedConceptMgmt>::remove_cfg(&name, &cfg) } {
+                        Ok(true) => {
+                            pe.broken = true;
+                            out.push(ev(a, json!({"p": p})));
+                        }
+                        r => out.push(ev("fault_error", json!({"msg": format!("break_seg: {r:?}")}))),
+                    }
+                }
+            }
+            // fault: a foreign sender takes the sender side of the connection publisher -> subscriber
+            // (possible only while the publisher has not attached itself)
+            "occupy" => {
+                let (p, s) = (Self::u(act, "p") as u32, Self::u(act, "s") as u32);
+                if self.foreign.iter().any(|(k, _)| *k == (p, s)) {
+                    return out;
+                }
+                let cfg = self.connection_cfg();
+                if let (Some(pe), Some(se)) = (self.pubs.get(&p), self.subs.get(&s)) {
+                    if se.state != SubState::Live {
+                        return out;
+                    }
+                    let name = FileName::new(format!("{}_{}", pe.port.id().value(), se.id).as_bytes()).expect("connection name");
+                    let r = <S::Connection as ZeroCopyConnection>::Builder::new(&name)
+                        .config(&cfg)
+                        .buffer_size(se.buf)
+                        .receiver_max_borrowed_chunks_per_channel(self.q.borrow)
+                        .enable_safe_overflow(self.q.overflow)
+                        .number_of_chunks_per_segment(pe.n)
+                        .max_supported_shared_memory_segments(1)
+                        .number_of_channels(1)
+                        .timeout(self.config.global.creation_timeout)
+                        .create_sender();
+                    if let Ok(fs) = r {
+                        self.foreign.push(((p, s), fs));
+                        out.push(ev(a, json!({"p": p, "s": s})));
+                    }
+                }
+            }
             "loan" => {
                 let p = Self::u(act, "p") as u32;
                 let id = self.next_id;
@@ -435,15 +709,8 @@ impl<S: Service, K: Kind> World<S, K> {
                         drop(l);
                         out.push(ev(a, json!({"p": p, "id": id})));
                     } else {
-                        self.calls.lock().unwrap().clear();
-                        let res = l.send();
-                        let mut blocked = self.calls.lock().unwrap().clone();
-                        blocked.sort();
-                        blocked.dedup();
-                        match res {
-                            Ok(n) => out.push(ev(a, json!({"p": p, "id": id, "r": "ok", "n": n, "blk": blocked.len()}))),
-                            Err(e) => out.push(ev(a, json!({"p": p, "id": id, "r": format!("{e:?}"), "n": 0, "blk": blocked.len()}))),
-                        }
+                        let nest = act.get("nest").and_then(|n| n.as_array()).cloned();
+                        return self.exec_send(p, id, l, nest);
                     }
                 }
             }
@@ -475,7 +742,7 @@ impl<S: Service, K: Kind> World<S, K> {
                 if let Some(pe) = self.pubs.get(&p) {
                     let r = match pe.port.update_connections() {
                         Ok(()) => "ok".to_string(),
-                        Err(e) => format!("{e:?}"),
+                        Err(e) => norm_err(format!("ConnectionFailure({e:?})")),
                     };
                     out.push(ev(a, json!({"p": p, "r": r})));
                 }
@@ -497,7 +764,7 @@ impl<S: Service, K: Kind> World<S, K> {
                                                   "cok": if ok && p == p2 { 1 } else { 0 }})));
                         }
                         Ok(None) => out.push(ev(a, json!({"s": s, "r": "none", "p": 0, "id": 0, "cok": 1}))),
-                        Err(e) => out.push(ev(a, json!({"s": s, "r": format!("{e:?}"), "p": 0, "id": 0, "cok": 1}))),
+                        Err(e) => out.push(ev(a, json!({"s": s, "r": norm_err(format!("{e:?}")), "p": 0, "id": 0, "cok": 1}))),
                     }
                 }
             }
@@ -520,7 +787,7 @@ impl<S: Service, K: Kind> World<S, K> {
                     if let (SubState::Live, Some(port)) = (se.state, se.port.as_ref()) {
                         let r = match port.update_connections() {
                             Ok(()) => "ok".to_string(),
-                            Err(e) => format!("{e:?}"),
+                            Err(e) => norm_err(format!("ConnectionFailure({e:?})")),
                         };
                         out.push(ev(a, json!({"s": s, "r": r})));
                     }
@@ -532,7 +799,7 @@ impl<S: Service, K: Kind> World<S, K> {
                     if let (SubState::Live, Some(port)) = (se.state, se.port.as_ref()) {
                         match port.has_samples() {
                             Ok(v) => out.push(ev(a, json!({"s": s, "r": "ok", "v": if v { 1 } else { 0 }}))),
-                            Err(e) => out.push(ev(a, json!({"s": s, "r": format!("{e:?}"), "v": 0}))),
+                            Err(e) => out.push(ev(a, json!({"s": s, "r": norm_err(format!("ConnectionFailure({e:?})")), "v": 0}))),
                         }
                     }
                 }
@@ -545,29 +812,78 @@ impl<S: Service, K: Kind> World<S, K> {
     // -----------------------------------------------------------------------------------------
     // the driver's own generator: knows the live objects
 
-    fn gen_action(&self, rng: &mut Rng) -> Value {
+    /// Calls made from inside the unable-to-deliver handler that runs for subscriber `blocked`:
+    /// the consumer catches up (returns what it holds, drains its buffer) - completely, partially or
+    /// not at all - then the handler answers.
+    fn gen_nested(&self, rng: &mut Rng, blocked: u32) -> (Vec<Value>, String) {
+        let mut ops = Vec::new();
+        let live_s: Vec<u32> = self.subs.iter().filter(|(_, s)| s.state == SubState::Live).map(|(k, _)| *k).collect();
+        let mode = rng.below(4);
+        if mode == 0 {
+            // drain: everything the blocked subscriber owns goes back
+            if let Some(se) = self.subs.get(&blocked) {
+                for (id, _) in &se.held {
+                    ops.push(json!({"a": "drop_sample", "s": blocked, "id": id}));
+                }
+                for _ in 0..se.buf + 1 {
+                    ops.push(json!({"a": "recv", "s": blocked}));
+                    ops.push(json!({"a": "drop_sample", "s": blocked, "id": 0}));
+                }
+            }
+        } else if mode < 3 && !live_s.is_empty() {
+            for _ in 0..rng.range(1, 4) {
+                let s = if rng.chance(2, 3) && live_s.contains(&blocked) { blocked } else { *rng.pick(&live_s) };
+                match rng.below(5) {
+                    0 | 1 => ops.push(json!({"a": "recv", "s": s})),
+                    2 | 3 => ops.push(json!({"a": "drop_sample", "s": s, "id": 0})),
+                    _ => ops.push(json!({"a": "has", "s": s})),
+                }
+            }
+        }
+        let act = match rng.below(10) {
+            0..=5 => "retry",
+            6..=8 => "discard",
+            _ => "fail",
+        };
+        (ops, act.to_string())
+    }
+
+    fn gen_action(&self, rng: &mut Rng, faults: bool) -> Value {
         let live_p: Vec<u32> = self.pubs.keys().copied().collect();
         let live_s: Vec<u32> = self.subs.iter().filter(|(_, s)| s.state == SubState::Live).map(|(k, _)| *k).collect();
         let with_loans: Vec<u32> = self.pubs.iter().filter(|(_, p)| !p.loans.is_empty()).map(|(k, _)| *k).collect();
         let with_held: Vec<u32> = self.subs.iter().filter(|(_, s)| s.state != SubState::Abandoned && !s.held.is_empty()).map(|(k, _)| *k).collect();
         let q = &self.q;
+        // with a small expired-connection buffer publishers come and go more often
+        let churn = q.expbuf < 8 && q.maxpubs > 1;
+        let degs = ["warn", "warn", "ignore", "fail", "fail"];
         for _ in 0..200 {
             let w = rng.below(100);
             let act = match w {
                 0..=3 if self.next_p <= MAX_PUB_INSTANCES && (live_p.len() < q.maxpubs || rng.chance(1, 5)) => {
-                    json!({"a": "create_pub", "p": self.next_p})
+                    let deg = if faults { *rng.pick(&degs) } else { "warn" };
+                    json!({"a": "create_pub", "p": self.next_p, "deg": deg})
                 }
                 4 if !live_p.is_empty() && self.next_p <= MAX_PUB_INSTANCES => json!({"a": "drop_pub", "p": *rng.pick(&live_p)}),
+                5 if churn && !live_p.is_empty() && self.next_p < MAX_PUB_INSTANCES => json!({"a": "drop_pub", "p": *rng.pick(&live_p)}),
                 6..=11 if self.next_s <= MAX_SUB_INSTANCES && (live_s.len() + (self.abandoned as usize) < q.maxsubs || rng.chance(1, 5)) => {
                     // mostly legal arguments, sometimes one step beyond a limit
                     let buf = if rng.chance(1, 12) { q.bufmax + 1 } else { rng.range(1, q.bufmax as u64) as usize };
                     let maxreq = q.hist.min(buf);
                     let req = if rng.chance(1, 10) { maxreq + 1 } else { rng.range(0, maxreq as u64) as usize };
-                    json!({"a": "create_sub", "s": self.next_s, "buf": buf, "req": req})
+                    let deg = if faults { *rng.pick(&degs) } else { "warn" };
+                    json!({"a": "create_sub", "s": self.next_s, "buf": buf, "req": req, "deg": deg})
                 }
                 12..=13 if !live_s.is_empty() && self.next_s <= MAX_SUB_INSTANCES => {
                     let mode = if rng.chance(1, 3) { "zombie" } else { "orderly" };
                     json!({"a": "drop_sub", "s": *rng.pick(&live_s), "mode": mode})
+                }
+                14 if faults && !live_p.is_empty() && rng.chance(1, 2) => {
+                    if rng.chance(1, 2) || live_s.is_empty() {
+                        json!({"a": "break_seg", "p": *rng.pick(&live_p)})
+                    } else {
+                        json!({"a": "occupy", "p": *rng.pick(&live_p), "s": *rng.pick(&live_s)})
+                    }
                 }
                 15 if !live_s.is_empty() && self.abandoned == 0 && q.maxsubs > 1 && rng.chance(1, 4) => {
                     json!({"a": "abandon_sub", "s": *rng.pick(&live_s)})
@@ -576,7 +892,13 @@ impl<S: Service, K: Kind> World<S, K> {
                 32..=51 if !with_loans.is_empty() => {
                     let p = *rng.pick(&with_loans);
                     let l = &self.pubs[&p].loans;
-                    json!({"a": "send", "p": p, "id": l[rng.below(l.len() as u64) as usize].0})
+                    let id = l[rng.below(l.len() as u64) as usize].0;
+                    if q.strategy != "discard" && !q.overflow && rng.chance(1, 2) {
+                        // the unable-to-deliver handler (if it runs) makes calls of its own
+                        json!({"a": "send", "p": p, "id": id, "nest": [{"gen": rng.next() >> 16}, {"gen": rng.next() >> 16}, {"gen": rng.next() >> 16}]})
+                    } else {
+                        json!({"a": "send", "p": p, "id": id})
+                    }
                 }
                 52..=54 if !with_loans.is_empty() => {
                     let p = *rng.pick(&with_loans);
@@ -618,6 +940,7 @@ impl<S: Service, K: Kind> World<S, K> {
             }
             drop(s);
         }
+        self.foreign.clear();
     }
 }
 
@@ -625,12 +948,24 @@ fn open_node<S: Service>(config: &Config) -> Node<S> {
     NodeBuilder::new().config(config).create::<S>().expect("node")
 }
 
-pub fn probe_params<S: Service, K: Kind>(config: &Config, name: &str, q: &Qos) -> usize {
-    let node = open_node::<S>(config);
+fn job_config(config: &Config, q: &Qos) -> Config {
+    let mut c = config.clone();
+    c.defaults.publish_subscribe.subscriber_expired_connection_buffer = q.expbuf;
+    c
+}
+
+/// (number of chunks of a publisher's data segment, capacity of the completion queue of a connection
+/// with buffer size `bufmax`) as the RUNNING code creates them.  The completion queue capacity is
+/// measured on the connection type of the service: send/receive/release without reclaim until the
+/// release is refused.
+pub fn probe_params<S: Service, K: Kind>(config: &Config, name: &str, q: &Qos) -> (usize, usize) {
+    use iceoryx2_cal::shm_allocator::PointerOffset;
+    use iceoryx2_cal::zero_copy_connection::{ChannelId, ZeroCopyReceiver, ZeroCopySender};
+    let config = job_config(config, q);
+    let node = open_node::<S>(&config);
     let sname = ServiceName::new(name).expect("service name");
     let factory = K::create_service(&node, &sname, q).expect("service");
-    let calls: Calls = Arc::new(Mutex::new(Vec::new()));
-    let port = K::create_publisher(&factory, q, calls).expect("publisher");
+    let port = K::create_publisher(&factory, q, Hook::new(), "warn").expect("publisher");
     let mut n = 0;
     let pid = port.id();
     factory.dynamic_config().list_publishers(|d| {
@@ -639,10 +974,47 @@ pub fn probe_params<S: Service, K: Kind>(config: &Config, name: &str, q: &Qos) -
         }
         CallbackProgression::Continue
     });
-    n
+    drop(port);
+
+    let total = q.bufmax + q.borrow + 8;
+    let cname = FileName::new(format!("cqprobe_{}_{}", std::process::id(), name.replace('/', "_")).as_bytes()).expect("name");
+    let ccfg = <<S::Connection as NamedConceptMgmt>::Configuration>::default()
+        .prefix(&config.global.prefix)
+        .suffix(&config.global.service.connection_suffix)
+        .path_hint(config.global.root_path());
+    let mk = || {
+        <S::Connection as ZeroCopyConnection>::Builder::new(&cname)
+            .config(&ccfg)
+            .buffer_size(q.bufmax)
+            .receiver_max_borrowed_chunks_per_channel(q.borrow)
+            .enable_safe_overflow(q.overflow)
+            .number_of_chunks_per_segment(total)
+            .max_supported_shared_memory_segments(1)
+            .number_of_channels(1)
+            .timeout(config.global.creation_timeout)
+    };
+    let sender = mk().create_sender().expect("probe sender");
+    let receiver = mk().create_receiver().expect("probe receiver");
+    let ch = ChannelId::new(0);
+    let mut cap = 0usize;
+    for k in 0..total {
+        if sender.try_send(PointerOffset::new(k * 8), 8, ch).is_err() {
+            break;
+        }
+        match receiver.receive(ch) {
+            Ok(Some(o)) => {
+                if receiver.release(o, ch).is_err() {
+                    break;
+                }
+                cap += 1;
+            }
+            _ => break,
+        }
+    }
+    (n, cap)
 }
 
-pub fn run_job<S: Service, K: Kind>(
+pub fn run_job<S: Service + 'static, K: Kind>(
     config: &Config,
     name: &str,
     q: &Qos,
@@ -651,9 +1023,11 @@ pub fn run_job<S: Service, K: Kind>(
     summary: &mut Summary,
 ) {
     let seed = job["gen"]["seed"].as_u64().unwrap_or(0);
+    let faults = job["gen"]["faults"].as_u64().unwrap_or(0) == 1;
     tw.emit(&q.reset_event(name, seed));
     summary.runs += 1;
-    let node = open_node::<S>(config);
+    let config = job_config(config, q);
+    let node = open_node::<S>(&config);
     let sname = ServiceName::new(name).expect("service name");
     let factory = match K::create_service(&node, &sname, q) {
         Ok(f) => f,
@@ -662,14 +1036,19 @@ pub fn run_job<S: Service, K: Kind>(
             return;
         }
     };
-    let mut world = World::<S, K>::new(factory, q);
+    let mut world = World::<S, K>::new(factory, q, &config);
     let result = catch_unwind(AssertUnwindSafe(|| {
         let emit = |world: &World<S, K>, events: Vec<Value>, tw: &mut TraceWriter, summary: &mut Summary| {
             let n = events.len();
             for (i, mut e) in events.into_iter().enumerate() {
-                // the digest of everything still held is taken after the step (= after its last event)
-                let bad = if i + 1 == n { world.bad() } else { Vec::new() };
-                e.as_object_mut().unwrap().insert("bad".into(), json!(bad));
+                // the digest of everything still held is taken after the step (= after its last event);
+                // calls made from inside a handler carry the digest taken right after them
+                if e.get("bad").is_none() {
+                    let bad = if i + 1 == n { world.bad() } else { Vec::new() };
+                    e.as_object_mut().unwrap().insert("bad".into(), json!(bad));
+                } else if i + 1 == n {
+                    e.as_object_mut().unwrap().insert("bad".into(), json!(world.bad()));
+                }
                 summary.count(&e);
                 tw.emit(&e);
             }
@@ -683,7 +1062,7 @@ pub fn run_job<S: Service, K: Kind>(
             let steps = job["gen"]["steps"].as_u64().unwrap_or(100);
             let mut rng = Rng::new(seed);
             for _ in 0..steps {
-                let act = world.gen_action(&mut rng);
+                let act = world.gen_action(&mut rng, faults);
                 let events = world.exec(&act);
                 emit(&world, events, tw, summary);
             }
@@ -702,6 +1081,7 @@ pub fn run_job<S: Service, K: Kind>(
                 .unwrap_or_else(|| "panic".into());
             summary.panics += 1;
             tw.emit(&json!({"k": "op", "a": "panic", "msg": msg, "bad": []}));
+            *world.hook.nested.lock().unwrap_or_else(|e| e.into_inner()) = None;
             std::mem::forget(world);
         }
     }
